@@ -448,6 +448,66 @@ def radix_boundary_cases(rng, quick):
                 out += [('Number("0b%s")' % t, int_to_canon(v)), ('+"0B%s"' % t, int_to_canon(v)), ('0b%s' % t, int_to_canon(v))]
     return out
 
+
+def bigint_and_typedarray_cases(rng, quick):
+    """BigInt <-> Number paths and typed-array includes/indexOf/lastIndexOf (SameValueZero / strict equality on the
+    COERCED element); python ints and binary64 are the oracle"""
+    out = []   # (js source, expected token)
+    def num(x): return py_canon_of_bits(f2b(x))
+    big = [0, 1, -1, 255, P53 - 1, P53, P53 + 1, P53 + 2, P53 + 3, -P53 - 1, (1 << 62), (1 << 63) - 1, 1 << 63, (1 << 63) + 1, -(1 << 63), -(1 << 63) - 1,
+           (1 << 64) - 1, 1 << 64, (1 << 64) + 5, -(1 << 64) - 5, (1 << 100) + 1, 10 ** 30, 1 << 1023, (1 << 1024) - (1 << 970), (1 << 1024) - (1 << 970) - 1, 1 << 1024, -(1 << 1024), 3 ** 200]
+    big += [rng.randrange(-(1 << 70), 1 << 70) for _ in range(6 if quick else 60)] + [rng.randrange(1 << 62, 1 << 66) for _ in range(6 if quick else 60)]
+    def lit(v): return ("(%dn)" % v) if v < 0 else ("%dn" % v)
+    for v in big:
+        exp = int_to_canon(abs(v), v < 0) if v != 0 else "i0"
+        out += [("Number(%s)" % lit(v), exp), ("new Number(%s).valueOf()" % lit(v), exp), ("Number(Object(%s))" % lit(v), exp), ('Number(BigInt("%d"))' % v, exp)]
+        w = v % (1 << 64)
+        out.append(("Number(BigInt.asUintN(64, %s))" % lit(v), int_to_canon(w)))
+        ws = w - (1 << 64) if w >= (1 << 63) else w
+        out.append(("Number(BigInt.asIntN(64, %s))" % lit(v), int_to_canon(abs(ws), ws < 0) if ws != 0 else "i0"))
+        # exact comparison BigInt <-> Number (never through a rounded conversion)
+        try:
+            xs = {float(v)}
+        except OverflowError:
+            xs = {math.inf if v > 0 else -math.inf}
+        for x in list(xs):
+            if math.isfinite(x):
+                xs.add(math.nextafter(x, math.inf)); xs.add(math.nextafter(x, -math.inf))
+        xs |= {math.nan, 0.5, -0.0}
+        for x in xs:
+            xl = js_num_literal(x)
+            if x != x:
+                eq = lt = gt = False
+            else:
+                eq, lt, gt = (v == x), (v < x), (v > x)
+            out += [("(%s == %s)*1" % (lit(v), xl), "i%d" % eq), ("(%s < %s)*1" % (lit(v), xl), "i%d" % lt), ("(%s > %s)*1" % (xl, lit(v)), "i%d" % lt),
+                    ("(%s >= %s)*1" % (lit(v), xl), "i%d" % (eq or gt)), ("(%s === %s)*1" % (lit(v), xl), "i0"), ("Object.is(%s, %s)*1" % (lit(v), xl), "i0"),
+                    ("[%s].includes(%s)*1" % (xl, lit(v)), "i0"), ("new Map([[%s,1]]).has(%s)*1" % (xl, lit(v)), "i0")]
+    for src in ["5n+1", "1-5n", "2*3n", "+5n", "Math.abs(5n)", "5n/2", "5n%2", "5n>>>1n", "Math.max(1n,2)", "5n**2", "isNaN(5n)", "(5n)|0 === 5"]:
+        out.append(("(function(){try{return (%s, 0)}catch(e){return (e instanceof TypeError)*1}})()" % src, "i0" if src == "(5n)|0 === 5" else "i1"))
+    out[-1] = ("(function(){try{return ((5n)|0, 0)}catch(e){return (e instanceof TypeError)*1}})()", "i1")
+    # typed arrays: element coerced by the array type, then SameValueZero (includes) / strict equality (indexOf, lastIndexOf)
+    def f32(x):
+        try:
+            return struct.unpack("<f", struct.pack("<f", x))[0]
+        except OverflowError:
+            return math.copysign(math.inf, x)
+    kinds = [("Float64Array", lambda x: x, True), ("Float32Array", f32, True),
+             ("Int8Array", lambda x: float(py_spec_conv("int8", x)), False), ("Uint8Array", lambda x: float(py_spec_conv("uint8", x)), False),
+             ("Int32Array", lambda x: float(py_spec_conv("int32", x)), False), ("Uint32Array", lambda x: float(py_spec_conv("uint32", x)), False),
+             ("Uint8ClampedArray", lambda x: float(py_spec_conv("clamp8", x)), False)]
+    elems = [0.0, -0.0, math.nan, 1.0, 1.5, 257.0, -1.0, 2147483648.0, 0.1, math.inf, 255.5, 4294967297.0]
+    for name, co, isf in kinds:
+        for e in elems:
+            ce = co(e)
+            for sv in elems + [ce]:
+                svz = (ce != ce and sv != sv) or ce == sv
+                seq = ce == sv
+                a = "new %s([%s])" % (name, js_num_literal(e))
+                out += [("%s.includes(%s)*1" % (a, js_num_literal(sv)), "i%d" % svz), ("%s.indexOf(%s)" % (a, js_num_literal(sv)), "i0" if seq else "i-1"),
+                        ("%s.lastIndexOf(%s)" % (a, js_num_literal(sv)), "i0" if seq else "i-1")]
+    return out
+
 STR_POOL = ["", " ", "0", "-0", "+0", "6.0", "6.", ".6", ".", "-", "+", "1e3", "1E3", "1e+3", "1e-3", "1e", "e3", "1e400", "-1e400", "1e-400", "-1e-400",
             "Infinity", "+Infinity", "-Infinity", "infinity", "INFINITY", "Inf", "inf", "+inf", "-Inf", "NaN", "nan", "0x10", "0X1f", "0x", "0xg", "0x-5", "0x+5", "-0x10", "+0x10",
             "0b101", "0B11", "0b2", "0b", "0b-1", "0b+1", "0o17", "0O7", "0o8", "0o", "0o-7", "0x1p3", "0x.8", "1_000", "0x1_0", "1__0", "_1", "00x1", "010", "09", "-010",
@@ -502,15 +562,22 @@ def main(ctx):
 
     # ---------------------------------------------------------------- 1-3. regenerate, build, audit
     regen_ok = ctx.regen()
-    ok, errs = ctx.lake_build(["GojaModel.C05.Props", "GojaModel.C05.Tie", "model_c05"])
+    ok, errs = ctx.lake_build(["GojaModel.C05.Props", "GojaModel.C05.Tie", "GojaModel.C05.DecTie", "model_c05"])
     if regen_ok:
         ctx.obligation("tie:C05_NumSites+C05_Shapes regenerated", "tie", True, "; ".join(ctx.stats.get("extract", [])))
     t_build = time.time() - ctx.t0
-    names = ctx.audit("GojaModel.C05.Props", expect_min=60)
+    names = ctx.audit("GojaModel.C05.Props", expect_min=68)
     tie_errs = [e for e in errs if os.path.basename(e["file"]) == "Tie.lean" or "Generated" in e["file"]]
     tie_bad = {e["decl"] for e in tie_errs}
-    for t in ("numSites_ok", "wrappers_ok", "wrappers_canonical", "maxInt_tie", "whitespace_tie", "canonicalisers_tie", "conversions_tie",
-              "mul_tie", "strnum_tie", "identity_tie", "includes_tie", "mathsign_tie", "parseint_tie"):
+    dec_errs = [e for e in errs if os.path.basename(e["file"]) in ("DecTie.lean", "C05_Decisions.lean", "GenPrelude.lean")]
+    dec_bad = {e["decl"] for e in dec_errs}
+    for t in ("floatToInt_tie", "intToValue_tie", "floatToValue_tie", "floatToIntClip_tie", "toLength_tie", "toIndex_tie", "float64ToInt64Mod_tie", "intCache_tie",
+              "mulNegZeroGuard_tie", "mulFitsGuard_tie", "modGuards_tie", "parseIntGuards_tie"):
+        # translated Go decision function = hand model, for all inputs (DecTie.lean); checked by the lake build above
+        if regen_ok and t not in dec_bad and not any(os.path.basename(e["file"]) != "DecTie.lean" or e["decl"] in ("?", "lake build") for e in dec_errs):
+            ctx.obligation("tie:GojaModel.C05.DecTie." + t, "tie", True, "translated function proved equal to the model")
+    for t in ("numSites_ok", "wrappers_ok", "wrappers_canonical", "maxInt_tie", "whitespace_tie", "conversions_tie",
+              "strnum_tie", "identity_tie", "includes_tie", "mathsign_tie", "parseint_tie"):
         # Tie theorems are `rfl`/`decide` over regenerated data: checked by the lake build above; a failing one is already a
         # broken obligation named lean:…Tie.lean:<theorem>; here the ones that still check are recorded as discharged
         if regen_ok and t not in tie_bad and not any(os.path.basename(e["file"]).startswith("C05_") or e["decl"] in ("?", "lake build") for e in tie_errs):
@@ -693,6 +760,13 @@ def main(ctx):
         if l not in js_expect:
             lines.append(l)
             js_expect[l] = (exp, "radix-boundary")
+    # BigInt <-> Number paths; typed-array includes/indexOf on coerced elements
+    bt = bigint_and_typedarray_cases(rng, quick)
+    for src, exp in bt:
+        l = "js " + src
+        if l not in js_expect:
+            lines.append(l)
+            js_expect[l] = (exp, "bigint-typedarray")
     # ToValue of Go numeric types
     gov = []
     for t, lo, hi in [("int8", -128, 127), ("int16", -32768, 32767), ("int32", -(1 << 31), (1 << 31) - 1), ("int64", -(1 << 63), (1 << 63) - 1), ("int", -(1 << 63), (1 << 63) - 1),
@@ -932,6 +1006,8 @@ def main(ctx):
                     pass
                 elif cls == "str2num":
                     sig = classify_str(l, out, exp)
+                elif cls == "bigint-typedarray" and re.match(r"js (new )?Number\(", l) and "n" in l:
+                    sig = "number-of-bigint-beyond-int64:low-64-bits"
                 elif re.search(r"\|0|>>>?0|~|&0x", l) and re.search(r"e21|9223372036854777856|2\*\*63", l):
                     sig = "toIntN-abs-ge-2p63:int64-conversion-out-of-range"
                 elif re.fullmatch(r"js var a=-?\d+,b=-?\d+; a\*b", l) and out == "i0" and exp == "f8000000000000000":
@@ -968,7 +1044,7 @@ def main(ctx):
         ctx.sample("%s -> %s" % (l[:100], o))
     stats["branches"] = dict(sorted(stats["branches"].items()))
     ctx.stats.update(stats)
-    ctx.stats["sizes"] = {"radix_boundary": len(rb), "trees": len(trees), "tree_pairs": len(tree_pairs), "lines": len(lines), "bit_patterns": len(bits), "ints": len(ints), "strings": len(strs), "scripts": len(jsc), "corpus": len(corpus),
+    ctx.stats["sizes"] = {"bigint_typedarray": len(bt), "radix_boundary": len(rb), "trees": len(trees), "tree_pairs": len(tree_pairs), "lines": len(lines), "bit_patterns": len(bits), "ints": len(ints), "strings": len(strs), "scripts": len(jsc), "corpus": len(corpus),
                           "exhaustive": "no (sampled; boundary classes enumerated)"}
     return ctx.finish(level="proof",
                       rule="one case = one protocol line (a bit pattern / int / operand pair / string / script through one entry point); distinct non-trivial = "
